@@ -366,6 +366,8 @@ def oracle_c03(cfg, obs):
                 name, k, got_t[k] if k < len(got_t) else 'missing', want_t[k] if k < len(want_t) else 'nothing'), 'onion')
         if want_o[0] == 'ctx':
             want_o = ['exc', 'TypeError']
+        if want_o[0] == 'exc' and want_o[1].startswith('Http'):
+            want_o = ['resp', want_o[1][4:]]      # a raised HTTPException that nobody swallowed is answered with its own status
         if o['outcome'] != want_o:
             return ('%s route: outcome %s, the outermost layer produced %s' % (name, o['outcome'], want_o), 'outcome')
     return None
@@ -554,8 +556,8 @@ def run(prop, rep, b, tier, seed, only_cases=None):
                 'and matches the same paths; (second instances of a type, '
                 'unique/reorderable flags), each with any subset of request/endpoint/render functions, signatures with '
                 'required/defaulted/keyword-only(/positional-only) parameters over {a,b,c,d,e,f}+built-ins, three provides '
-                'tuples, URL bindings, application and route resources, endpoint/render of 8 callable kinds (incl. a functools.wraps wrapper around a function bound earlier), scripts '
-                '(raise before/after, early Response, swallow, replace; endpoint ctx/Response/raise; render Response/'
+                'tuples, URL bindings, application and route resources, endpoint/render of 9 callable kinds (incl. a functools.wraps wrapper around a function bound earlier and a class-based clastic_decorator wrapper), renders optionally produced by the render factory of the application, in a quarter of the cases one name is one the generated code uses itself (endpoint, render, funcs, BaseResponse, resp, __traceback_hide__, ...), scripts '
+                '(raise before/after - plain exceptions and clastic HTTPExceptions -, early Response, swallow, replace; endpoint ctx/Response/raise; render Response/'
                 'non-Response/raise); exhaustive one-middleware scope (%s cases) + random + one stream per C04 defect kind '
                 '(%s); the real Application is constructed and sent two requests to the null route and two to the route; '
                 'constructor outcome, every recorded keyword set with sentinel values, enter/leave traces compared with '
